@@ -1,0 +1,33 @@
+//go:build verif
+
+package pisces
+
+// Export shim for the verification harness in /verif (build tag verif).
+// Nothing here is compiled into normal builds.
+
+// VerifEntry is one stored entry of a memory KV: the key as filed by the
+// backend (hashed for an unordered store), its class and its bytes.
+type VerifEntry struct {
+	Key   string
+	Class string
+	Value []byte
+}
+
+// VerifNewMemKV returns a memory backed KV together with a function that
+// reads the whole table under the store's lock.
+func VerifNewMemKV(ordered bool) (*KV, func() []VerifEntry) {
+	b := newMemKV()
+	dump := func() []VerifEntry {
+		b.mu.RLock()
+		defer b.mu.RUnlock()
+		var out []VerifEntry
+		for k, e := range b.m {
+			out = append(out, VerifEntry{Key: k, Class: e.cls, Value: e.bytes()})
+		}
+		return out
+	}
+	if ordered {
+		return newOrderedKV(b.ops()), dump
+	}
+	return newKV(b.ops()), dump
+}
